@@ -301,10 +301,16 @@ type mapStats struct {
 // GetMapStats returns JSON describing in-memory mapping stats.
 func (d *Data) GetMapStats(ctx *datastore.VersionedCtx) (jsonBytes []byte, err error) {
 	stats := make(map[string]mapStats)
+	iMap.RLock()
+	caches := make(map[dvid.UUID]*VCache, len(iMap.maps))
 	for dataUUID, vc := range iMap.maps {
-		var ds datastore.DataService
-		if ds, err = datastore.GetDataByDataUUID(dataUUID); err != nil {
-			return
+		caches[dataUUID] = vc
+	}
+	iMap.RUnlock()
+	for dataUUID, vc := range caches {
+		ds, dserr := datastore.GetDataByDataUUID(dataUUID)
+		if dserr != nil {
+			continue // the mapping of an instance that has been deleted since
 		}
 		vc.mappedVersionsMu.RLock()
 		maxVersion := 0
